@@ -14,6 +14,13 @@ NOTE = ("exhaustive only within the bounded universes listed in the evidence fil
         "harness/realize.py are trusted")
 
 ENGINES = {
+    "tlc-codec": ("spec/Codec.tla", "the path and node encodings as TLA+ definitions (hex-prefix from Yellow Paper "
+                  "appendix C, nibble/bit/byte conversions, binary key-path packing, binary node shapes); TLC "
+                  "enumerates the bounded domain, checks the round-trip laws and prints the table that "
+                  "harness/codec.py runs through the real functions; Trace_Codec.tla recomputes recorded real calls"),
+    "tlc-rejects": ("spec/HexaryTrie.tla", "the Rejected actions and tables HexRejects / BinRejects / SmtRejects / "
+                    "FogRejects of HexaryTrie.tla, BinaryTrie.tla, SMT.tla and Fog.tla, interleaved by TLC with every "
+                    "other action; replayed with concrete ill-typed values by the four replayers"),
     "tlc-binary": ("spec/BinaryTrie.tla", "TLA+ specification of trie.binary.BinaryTrie (_set with its eight splitting "
                    "cases and two compressions transcribed; BCanon, BLookup, Conflict defined independently) and of the "
                    "helpers of trie.branches; model checked by TLC; behaviours and per-state branch / witness tables "
@@ -118,6 +125,21 @@ add("C15", "tlc-smt", "ProofInSync and ShortestListSuffices are model checked wi
     "key pairs whose difference is a long run of ones; every transition replayed on a real SparseMerkleProof "
     "(refusal exactly when too short, proof unchanged by a refusal, value / branch / root equal to the tree's)",
     technique=T_S2C)
+add("C16", "tlc-codec", "exhaustive enumeration by TLC of a bounded input domain (all nibble sequences up to length 3 "
+    "(thorough 5) with and without terminator, all bit strings up to length 9 (13), all byte strings of length <= 1 "
+    "(2), every (type byte, length) node shape); the round-trip laws are invariants over the TLA+ definitions and every "
+    "row is run through the real encode/decode/parse functions; recorded real calls on longer random inputs are "
+    "recomputed by TLC; database nodes of replayed hexary behaviours are re-classified",
+    technique="TLA+ definitions of the encodings enumerated and checked by TLC over a bounded domain; the emitted table is "
+    "replayed through the real functions, and recorded real calls are recomputed by TLC", category="exploration",
+    note="a state-based method adds least here: TLA+ serves as an executable mathematical definition and TLC as an "
+    "exhaustive enumerator; exhaustive within the stated bound, random beyond; the definitions are my reading of the "
+    "Yellow Paper and of the binary node format")
+add("C18", "tlc-rejects", "Rejected(entry, kind) is enabled in every state of the hexary, binary, sparse-Merkle and fog "
+    "specifications and leaves every variable unchanged, so TLC interleaves an ill-formed call at any point of any "
+    "history and every invariant holds on every continuation; replayed with concrete ill-typed / ill-sized values: "
+    "exception class as tabulated, root / database / reference counts / buffers identical before and after, and any "
+    "later divergence that disappears when the refused calls are removed from the behaviour is a C18 finding")
 
 
 def build():
